@@ -23,12 +23,18 @@
 (*   FixSend     - Send selects on quit while enqueueing and re-drains     *)
 (*                 when the connection has already stopped                 *)
 (*   FixReader   - reader selects on quit while waiting for the hand-off   *)
+(*   FixFlushOnStop - when the filter chain answers a request itself       *)
+(*                 (Stop) and nothing else is queued, the writer flushes   *)
+(*                 the requests it encoded before; the pinned code jumps   *)
+(*                 back to the select and leaves them in the write buffer  *)
 (***************************************************************************)
 EXTENDS Naturals, Sequences, FiniteSets, TLC
 
 CONSTANTS Reqs,        \* request identities
           QCap,        \* capacity of pendingReqs / processingReqs (code: 1024)
           FixHandoff, FixSend, FixReader,
+          Banned,      \* requests the filter chain answers itself (commands disabled in compress mode)
+          FixFlushOnStop, \* the writer flushes what it has buffered when a filter answered the last queued request
           MaxResets,   \* how many times the environment may break the connection (0/1)
           WithStop,    \* whether a stopper calls client.Stop
           Det          \* TRUE: resolve environment nondeterminism the way a loopback TCP
@@ -150,13 +156,25 @@ WriterSelect ==
   /\ UNCHANGED <<proc, quit, done, stopped, rd, rreq, wbuf, wire, replies, main, mdr, spc, sdr, stp,
                  compl, res, resets>>
 
+(* point client.loopWrite.got, filter chain says Stop (upstream.go:624-628): the request has been      *)
+(* answered by the filter; the repaired code flushes the buffer when the queue is empty, a failing      *)
+(* flush ends the writer (the buffered requests are in processingReqs and are drained by Start)         *)
+WriterFiltered ==
+  /\ w = "have" /\ wreq \in Banned
+  /\ Complete(wreq, "err") /\ wreq' = NoReq
+  /\ IF FixFlushOnStop /\ pend = <<>> /\ wbuf # <<>>
+       THEN IF connOpen THEN /\ wire' = wire \o wbuf /\ wbuf' = <<>> /\ w' = "select"
+                        ELSE /\ wbuf' = <<>> /\ w' = "exited" /\ UNCHANGED wire
+       ELSE /\ w' = "select" /\ UNCHANGED <<wire, wbuf>>
+  /\ UNCHANGED <<pend, proc, quit, done, stopped, connOpen, rd, rreq, replies, main, mdr, spc, sdr, stp, resets>>
+
 (* point client.loopWrite.got: filter chain, encode into the write buffer,  *)
 (* flush only when pendingReqs is empty (upstream.go:635-639).  A flush on  *)
 (* a broken connection fails: the request in hand is answered, the writer   *)
 (* exits (FAIL label).  Without Det a write on a broken connection may also *)
 (* be swallowed by the kernel without an error.                             *)
 WriterEncode ==
-  /\ w = "have"
+  /\ w = "have" /\ wreq \notin Banned
   /\ \/ /\ pend # <<>>                       \* no flush
         /\ wbuf' = Append(wbuf, wreq) /\ w' = "handoff"
         /\ UNCHANGED <<wire, compl, res, wreq>>
@@ -286,7 +304,7 @@ StopReturn ==
 
 -----------------------------------------------------------------------------
 SenderNext(r) == SendCheck(r) \/ SendEnqueue(r) \/ SendRecheck(r) \/ SendDrainTake(r) \/ SendDrainAnswer(r)
-WriterNext == WriterSelect \/ WriterEncode \/ WriterHandoff
+WriterNext == WriterSelect \/ WriterFiltered \/ WriterEncode \/ WriterHandoff
 ReaderNext == ReaderDecode \/ ReaderPair \/ ReaderHandle
 MainNext == MainAfterRead \/ MainWaitWrite \/ MainDrainTake \/ MainDrainAnswer \/ MainDone
 StopNext == StopQuit \/ StopClose \/ StopReturn
